@@ -1,9 +1,11 @@
 import MaltModel.Util.Sexp
 import MaltModel.Rt.Dedent
 import MaltModel.Rt.Lambda
+import MaltModel.Rt.Lex
 /- Driver handlers for the C15 correspondence (glue only; no theorem depends on this file). -/
 namespace Malt.Drv.C15
 open Malt Malt.Dedent Malt.Lambda
+open Malt.Lex (lexA contsInCode classes Cls Mode step multilineFString)
 
 def strS (s : Str) : Sexp := .atom (String.ofList s)
 
@@ -83,7 +85,71 @@ def run (f : Option String) : String := f.getD "bad-args"
 def spaces : List Nat :=
   (List.range 0x110000).filter fun n => decide n.isValidChar && isSpace (Char.ofNat n)
 
+def clsChar : Cls → Char
+  | .code => 'c' | .nl => 'n' | .cont => 'k' | .str => 's' | .comment => 'm'
+
+def atokS (a : ATok) : Sexp := .list [strS a.gap, .atom (reprStr a.tok.kind |>.splitOn "." |>.getLast!), strS a.tok.text]
+
+/-- diagnostic: in which mode is the first backslash-newline read that is not read in plain code? -/
+def contWhy : Mode → Str → String
+  | _, [] => "ok"
+  | _, [_] => "ok"
+  | m, c :: d :: r =>
+    if c = '\\' ∧ d = '\n' then
+      match m with
+      | .c0 => contWhy .c0 r
+      | .m => "backslash-newline-inside-comment"
+      | .cbs | .cq1 _ | .cq2 _ => "backslash-newline-after-pending-quote-or-backslash"
+      | _ => "backslash-newline-inside-string-literal"
+    else contWhy (step m c) (d :: r)
+
+/-- why a text is inside / outside the hypotheses of the theorems — computed with the Lean lexer only -/
+def whyText (s : Str) : List String :=
+  let orig := lexA s
+  let u := if contsInCode .c0 s then [] else [contWhy .c0 s]
+  let j := if contJoinsTokens orig then ["backslash-newline-joins-adjacent-tokens"] else []
+  let i := if contInIndentation orig then ["backslash-newline-in-indentation"] else []
+  let us := unfold s
+  let as := lexA us
+  let p := match as with | x :: _ => if x.tok.kind = .INDENT then x.tok.text else [] | [] => []
+  let d :=
+    if renderA as != us then ["dedent:lexer-does-not-render-the-text"]
+    else if (blockIndent (as.map (·.tok))).getD [] == [] then ["dedent:unindented(C15_dedent_unindented)"]
+    else if !wf p as then
+      ["dedent:outside-wf:" ++ (match as with | _ :: b :: rest => wfWhy p ⟨1, true, false⟩ (b :: rest) | _ => "short")]
+    else if !startsOk p as then ["dedent:indentation-discipline-fails"]
+    else if multilineFString as then ["dedent:multi-line-f-string(lexer-level-fragment-excludes;C15_dedent_text-applies)"]
+    else ["dedent:in-fragment(C15_recover_partial)"]
+  -- checked, not proved: on the fragment, re-lexing the unfolded text gives the tokens of the original text
+  -- (chunks are coarser than tokens: `x,\\⏎ctx()` re-lexes as the single chunk `x,ctx()`; compare with the chunks of
+  --  a line glued together — whether two WORDS get glued is the separate class contJoinsTokens)
+  let glue := fun (l : List (Kind × Str)) =>
+    (l.foldl (fun (acc : List (Kind × Str)) (x : Kind × Str) =>
+      match acc with
+      | (k1, t1) :: rest =>
+        if (k1 = .OP ∨ k1 = .STRING) ∧ (x.1 = .OP ∨ x.1 = .STRING) then (.STRING, t1 ++ x.2) :: rest else x :: acc
+      | [] => [x]) []).reverse
+  let sig := fun (l : List ATok) => glue (l.map fun a => (a.tok.kind, a.tok.text))
+  let kept := if sig as == sig orig then "relex:tokens-of-unfolded-text=tokens-of-text" else "relex:TOKENS-CHANGED"
+  (if u.isEmpty && j.isEmpty && i.isEmpty then ["unfold:in-fragment(C15_unfold_lex)"] else u ++ j ++ i) ++ d ++ [kept]
+
 def handlers : List (String × (List Sexp → String)) := [
+  ("c15.lex", fun a => run do
+      let [.atom code] := a | none
+      let s := code.toList
+      pure (toString (Sexp.list [.atom (String.ofList ((classes .c0 s).map clsChar)),
+              Sexp.list ((lexA s).map atokS)]))),
+  ("c15.why", fun a => run do
+      let [.atom code] := a | none
+      pure (toString (Sexp.list ((whyText code.toList).map .atom)))),
+  -- the lexer-based theorem instance: prediction of C15_dedent_lex for the ORIGINAL block text
+  ("c15.lexdedent", fun a => run do
+      let [.atom code] := a | none
+      let us := unfold code.toList
+      let as := lexA us
+      let p := match as with | x :: _ => if x.tok.kind = .INDENT then x.tok.text else [] | [] => []
+      let ok := renderA as == us && p != [] && wf p as && startsOk p as && !multilineFString as
+      pure (toString (Sexp.list [Sexp.ofBool ok, strS (renderA (adjust p as))]))),
   ("c15.unfold", fun a => run do
       let [.atom s] := a | none
       pure (toString (strS (unfold s.toList)))),
@@ -131,8 +197,15 @@ def handlers : List (String × (List Sexp → String)) := [
       let dl ← dl.nat?
       let sp ← spec? sp
       let sel := parseLambda tops dl sp
-      let _ := tgt
-      pure (toString (Sexp.list [selS sel])))
+      let cands := lambdaNodes dl tops
+      let dist : String := match tgt.nat? with
+        | some i => match cands.find? (·.id == i) with
+          | some c => if !spans dl c then "creating-node-does-not-span-def-line"
+                      else if distinguishable cands dl c then "distinguishable(C15_lambda_distinct)"
+                      else "same-visible-signature-as-a-neighbour(C15_lambda_ambiguity_reported)"
+          | none => "creating-node-not-in-searched-statements"
+        | none => "unknown-target"
+      pure (toString (Sexp.list [selS sel, .atom dist])))
 ]
 
 end Malt.Drv.C15
